@@ -172,7 +172,7 @@ pub fn to_lossy_string(input: &[u8]) -> Cow<str> {
 
     if indices.is_empty() {
         // no mappings at all, just encode it all as the default
-        let (cow, _encoding, _had_errors) = default_lfs_codepage.decode(input);
+        let (cow, _had_errors) = default_lfs_codepage.decode_without_bom_handling(input);
         return cow;
     }
 
@@ -198,7 +198,7 @@ pub fn to_lossy_string(input: &[u8]) -> Cow<str> {
         let range = &input[pair[0]..pair[1]];
 
         if range.len() < 2 {
-            let (cow, _encoding, _had_errors) = default_lfs_codepage.decode(range);
+            let (cow, _had_errors) = default_lfs_codepage.decode_without_bom_handling(range);
             result.push_str(&cow);
             continue;
         }
@@ -210,7 +210,7 @@ pub fn to_lossy_string(input: &[u8]) -> Cow<str> {
                 // Has a control character, but next character is not a codepage
                 // THEN
                 // fallback to default codepage and ensure we include the prefix
-                let (cow, _encoding, _had_errors) = default_lfs_codepage.decode(range);
+                let (cow, _had_errors) = default_lfs_codepage.decode_without_bom_handling(range);
                 result.push_str(&cow);
             },
             (true, Some(mapping)) => {
@@ -224,7 +224,7 @@ pub fn to_lossy_string(input: &[u8]) -> Cow<str> {
                 }
 
                 // encode everything except the markers
-                let (cow, _encoding_used, _had_errors) = mapping.decode(&range[2..]);
+                let (cow, _had_errors) = mapping.decode_without_bom_handling(&range[2..]);
                 result.push_str(&cow);
             },
         };
